@@ -270,6 +270,15 @@ theorem releases_broadcast :
     RqModel.LockFacts.broadcasts "internal/rsync.MultiRSW.EndWrite" = some 1 ∧
     RqModel.LockFacts.broadcasts "internal/rsync.MultiRSW.UpgradeToWriter" = some 0 := by decide
 
+/-- the blocking acquirers wait in ONE loop on the whole guard (regenerated): the model's
+"enabled exactly when `owner = "" ∧ numReaders ≤ 0` holds at the moment of acquisition" is one
+atomic re-check; two sequential loops (readers first, then the writer) would not be -/
+theorem wait_conditions :
+    RqModel.LockFacts.waitConds "internal/rsync.MultiRSW.BeginWriteBlocking" =
+      some ["r.owner != \"\" || r.numReaders > 0"] ∧
+    RqModel.LockFacts.waitConds "internal/rsync.MultiRSW.BeginReadBlocking" = some ["r.owner != \"\""] := by
+  decide
+
 /-! ### regenerated facts: each method is one critical section -/
 theorem lock_discipline :
     RqModel.LockFacts.wholeBody "internal/rsync.CheckAndSet.Begin" = true ∧
